@@ -500,7 +500,7 @@ _small_formulas_noel = G.formulas(max_depth=1, max_terms=2, max_hydrates=1, allo
 @st.composite
 def ionic_dict_cases(draw):
     mode = draw(st.sampled_from(MODES))
-    factory = draw(st.sampled_from(FACTORIES + ["default"]))
+    factory = draw(st.sampled_from(FACTORIES + ["default", "default"]))
     n = draw(st.integers(1, 9))
     specs = []     # ion descriptions
     seen = set()
